@@ -400,6 +400,14 @@ func treeGen(seed int64, n int, args []string, out *json.Encoder) {
 			}
 			c.H = append(c.H, hEntry{M: m, R: rt, Ok: true, Hdr: []hdrC{}, Call: call})
 			rgs = append(rgs, rg)
+			if kind == "hdr" && rng.Intn(4) == 0 {
+				// the same route for a second method through ONE Routes() call (one handle)
+				m2 := pick(rng, []string{"POST", "HEAD", "PUT"})
+				if m2 != m {
+					c.H = append(c.H, hEntry{M: m2, R: rt, Ok: true, Hdr: []hdrC{}, Call: call})
+					rgs = append(rgs, rg)
+				}
+			}
 		}
 		switch kind {
 		case "prio", "reg", "hdr":
@@ -409,6 +417,9 @@ func treeGen(seed int64, n int, args []string, out *json.Encoder) {
 				nh := 1 + rng.Intn(4)
 				for k := 0; k < nh; k++ {
 					reg := 1 + rng.Intn(len(c.H))
+					for reg > 1 && c.H[reg-2].Call == c.H[reg-1].Call {
+						reg-- // hops name the first registration of the call
+					}
 					var hs []hdrC
 					seen := map[string]bool{}
 					for q := rng.Intn(3); q > 0; q-- {
